@@ -31,15 +31,24 @@ theorem tables_inverse :
     they select the same implementing type and the same operator with the operands in source order. -/
 theorem dispatch_agree :
     ∀ op ∈ allOps, ∀ p ∈ shapes,
-      Agree tables op (comptime tables op p.1 p.2) (regular tables op p.1.ty p.2.ty) = true := by
+      Agree tables op (comptime tables op p.1 p.2) (regularO tables op p.1 p.2) = true := by
   decide +kernel
 
 /-- When the left operand is traced the two procedures select literally the same
     (type, dunder, argument order). -/
 theorem dispatch_same_when_traced_left :
-    ∀ op ∈ allOps, ∀ a ∈ allTys, ∀ r ∈ shapes.map (·.2),
-      comptime tables op (.traced a) r = some (regular tables op a r.ty) := by
+    ∀ op ∈ allOps, ∀ a ∈ allTys, ∀ b ∈ allTys,
+      comptime tables op (.traced a) (.traced b) = some (regular tables op a b) ∧
+      comptime tables op (.traced a) (.const b) = some (regular tables op a b) := by
   decide +kernel
+
+/-- the literal lists above are the tables' operators and every operand shape -/
+theorem enumerations_complete :
+    allOps = tables.ops.map (·.1) ∧ allUOps = tables.uops.map (·.1) ∧
+    (∀ a ∈ allTys, ∀ b ∈ allTys, (Operand.traced a, Operand.traced b) ∈ shapes) ∧
+    (∀ a ∈ allTys, ∀ b ∈ constTys, (Operand.traced a, Operand.const b) ∈ shapes ∧ (Operand.const b, Operand.traced a) ∈ shapes) ∧
+    (∀ t : NTy, t ∈ allTys) := by
+  refine ⟨by decide +kernel, by decide +kernel, by decide +kernel, by decide +kernel, fun t => by cases t <;> decide⟩
 
 /-- With a constant on the left the order of the two attempts is reversed; the selections then differ
     only as direct vs reflected dunder *of one and the same type* (never in the implementing type). -/
